@@ -249,3 +249,45 @@ def _collect(b, gens, names):
             names.append(n)
     key = (b["name"], tuple(map(tuple, dom)), tuple(map(tuple, cod)))
     gens.setdefault(key, None)
+
+
+def fake_snake(spec, p, left, a, obstruction=None):
+    """ Append to a rigid spec a cap and a cup in zig-zag position on wire p
+    of its codomain whose outer legs do NOT have the same type: with u the
+    type of the wire, t = u shifted by a and x = u shifted by 2a,
+
+        right-handed: Cap(x, t) @ Id(u) >> Id(x) @ Cup(t, u)    u -> x
+        left-handed:  Id(u) @ Cap(t, x) >> Cup(u, t) @ Id(x)    u -> x
+
+    Both are well-typed (the library takes cups and caps of either hand) and
+    neither is an instance of the snake equation: normalisation has to leave
+    them alone.  obstruction: None, "scalar", "state" (a state on the far
+    right, between the cap and the cup) or "endo" (a box on the wire to the
+    left, if any).  Returns None when wire p does not exist. """
+    from harness import specs
+    cod = specs.spec_cod(spec)
+    if not 0 <= p < len(cod):
+        return None
+    n, z = cod[p]
+    u, t, x = [n, z], [n, z + a], [n, z + 2 * a]
+    layers = [list(l) for l in spec["layers"]]
+    if left:
+        layers.append([{"k": "cap", "l": t, "r": x}, p + 1])
+    else:
+        layers.append([{"k": "cap", "l": x, "r": t}, p])
+    if obstruction == "scalar":
+        layers.append([{"k": "box", "name": "s", "dom": [], "cod": [],
+                        "dag": False}, p])
+    elif obstruction == "state":
+        layers.append([{"k": "box", "name": "w", "dom": [], "cod": [["s", 0]],
+                        "dag": False}, len(cod) + 2])
+    elif obstruction == "endo" and p > 0:
+        layers.append([{"k": "box", "name": "e", "dom": [cod[p - 1]],
+                        "cod": [cod[p - 1]], "dag": False}, p - 1])
+    if left:
+        layers.append([{"k": "cup", "l": u, "r": t}, p])
+    else:
+        layers.append([{"k": "cup", "l": t, "r": u}, p + 1])
+    out = dict(spec, layers=layers)
+    specs.scans(out)
+    return out
